@@ -34,6 +34,8 @@ let () =
       | _ :: "crash" :: [i] -> do_ev (EvCrash (nat_of_int (int_of_string i)))
       | _ :: "stop" :: [i; why] -> do_ev (EvStop (nat_of_int (int_of_string i), if why = "sunset" then SSunset else SCancel))
       | _ :: "cachedrop" :: [i; keep] -> do_ev (EvCacheDrop (nat_of_int (int_of_string i), nat_of_int (int_of_string keep)))
+      | _ :: "recompute" :: [i; key; lim] ->
+        do_ev (EvRecompute (nat_of_int (int_of_string i), n_of_string key, if lim = "-" then None else Some (n_of_string lim)))
       | _ :: "tamper" :: [key; "delete"] -> do_ev (EvTamper (bytes_of_string key, None))
       | _ :: "tamper" :: [key; "bytes"; b] -> do_ev (EvTamper (bytes_of_string key, Some (OB (unhex b))))
       | _ :: "tamper" :: [key; "cp"; origin; size; root; ts; k; ext] ->
